@@ -63,7 +63,10 @@ pub fn apply(sim: &mut SetSpeedTrainSim, letter: usize) -> StepOut {
     } else {
         let a = ACCELS[letter / 3];
         let dt = DTS[letter % 3];
-        (dt, v + a * dt)
+        // braking below zero from a moving train = "brake to a stand" (speed exactly 0 at the end of the step); a
+        // following hold letter is then a dwell step (0 -> 0) right after a step with non-zero wheel power
+        let v_new = v + a * dt;
+        (dt, if v > 0.0 && v_new < 0.0 { 0.0 } else { v_new })
     };
     let mut out = StepOut { accepted: false, panicked: false, err: String::new(), dt, v_new, skipped: false };
     if letter < 100 && (v_new < 0.0 || v_new > 22.0) {
